@@ -966,3 +966,201 @@ func (n *normalizer) sinkRound() bool {
 	}
 	return changed
 }
+
+// zeroDeclRound: `var v T` for a struct type T that the tree under analysis introduced (not on the reference tree) becomes
+// `v := T{}`, the form sroaRound splits into one variable per field.
+func (n *normalizer) zeroDeclRound() bool {
+	changed := false
+	for _, f := range n.pp.Syntax {
+		filename := n.fset.File(f.Pos()).Name()
+		var stack []ast.Node
+		ast.Inspect(f, func(x ast.Node) bool {
+			if x == nil {
+				stack = stack[:len(stack)-1]
+				return true
+			}
+			stack = append(stack, x)
+			ds, ok := x.(*ast.DeclStmt)
+			if !ok || len(stack) < 2 || !isListParent(stack[len(stack)-2], ds) {
+				return true
+			}
+			gd, ok := ds.Decl.(*ast.GenDecl)
+			if !ok || gd.Tok != token.VAR || len(gd.Specs) != 1 {
+				return true
+			}
+			vs := gd.Specs[0].(*ast.ValueSpec)
+			if len(vs.Names) != 1 || len(vs.Values) != 0 || vs.Type == nil || vs.Names[0].Name == "_" {
+				return true
+			}
+			obj := n.info.Defs[vs.Names[0]]
+			if obj == nil {
+				return true
+			}
+			named, ok := obj.Type().(*types.Named)
+			if !ok || named.Obj().Pkg() != n.pp.Types || headTypes[named.Obj().Name()] || named.TypeArgs().Len() > 0 {
+				return true
+			}
+			if _, isStruct := named.Underlying().(*types.Struct); !isStruct {
+				return true
+			}
+			if n.varAssign[obj] != nil {
+				return true
+			}
+			if n.overlaps(filename, n.off(ds.Pos()), n.off(ds.End())) {
+				return true
+			}
+			tt := n.src(filename, vs.Type.Pos(), vs.Type.End())
+			n.addEdit(filename, n.off(ds.Pos()), n.off(ds.End()), fmt.Sprintf("%s := %s{}", vs.Names[0].Name, tt))
+			n.notes = append(n.notes, fmt.Sprintf("`var %s %s` written as a composite literal", vs.Names[0].Name, tt))
+			changed = true
+			return true
+		})
+	}
+	return changed
+}
+
+// methodValueClosureRound: a method value `x.m` of a method the tree under analysis introduced, used as a value (a task
+// handed to the queue, a callback) with x a pointer variable that is never reassigned, is spelled as the closure
+// `func(p…) R { return x.m(p…) }`. The method then is an ordinary helper and is inlined into the closure: the shape the
+// code had before the closure's body was moved into a method. Methods that (mutually) refer to themselves are left alone.
+func (n *normalizer) methodValueClosureRound() bool {
+	// reference graph among the new functions
+	refs := map[*types.Func]map[*types.Func]bool{}
+	for fn, fd := range n.decls {
+		if !n.newFns[fn] || fd.Body == nil {
+			continue
+		}
+		refs[fn] = map[*types.Func]bool{}
+		ast.Inspect(fd.Body, func(x ast.Node) bool {
+			if id, ok := x.(*ast.Ident); ok {
+				if g, ok := n.info.Uses[id].(*types.Func); ok && n.newFns[g] {
+					refs[fn][g] = true
+				}
+			}
+			return true
+		})
+	}
+	recursive := func(m *types.Func) bool {
+		seen := map[*types.Func]bool{}
+		work := []*types.Func{m}
+		for len(work) > 0 {
+			f := work[len(work)-1]
+			work = work[:len(work)-1]
+			for g := range refs[f] {
+				if g == m {
+					return true
+				}
+				if !seen[g] {
+					seen[g] = true
+					work = append(work, g)
+				}
+			}
+		}
+		return false
+	}
+	changed := false
+	for _, f := range n.pp.Syntax {
+		filename := n.fset.File(f.Pos()).Name()
+		var stack []ast.Node
+		ast.Inspect(f, func(x ast.Node) bool {
+			if x == nil {
+				stack = stack[:len(stack)-1]
+				return true
+			}
+			stack = append(stack, x)
+			sel, ok := x.(*ast.SelectorExpr)
+			if !ok || len(stack) < 2 {
+				return true
+			}
+			s := n.info.Selections[sel]
+			if s == nil || s.Kind() != types.MethodVal || len(s.Index()) != 1 {
+				return true
+			}
+			m, ok := s.Obj().(*types.Func)
+			if !ok || !n.newFns[m] || m.Pkg() != n.pp.Types {
+				return true
+			}
+			// not in call position
+			var expr ast.Expr = sel
+			i := len(stack) - 2
+			for i >= 0 {
+				if p, isParen := stack[i].(*ast.ParenExpr); isParen {
+					expr = p
+					i--
+					continue
+				}
+				break
+			}
+			if i >= 0 {
+				if call, isCall := stack[i].(*ast.CallExpr); isCall && call.Fun == expr {
+					return true
+				}
+			}
+			fd := n.decls[m]
+			if fd == nil || fd.Body == nil || !n.inlinable(m, fd) || recursive(m) {
+				return true
+			}
+			sig := m.Type().(*types.Signature)
+			if sig.TypeParams().Len() > 0 || sig.RecvTypeParams().Len() > 0 {
+				return true
+			}
+			if _, ptrRecv := sig.Recv().Type().(*types.Pointer); !ptrRecv {
+				return true
+			}
+			id, ok := ast.Unparen(sel.X).(*ast.Ident)
+			if !ok {
+				return true
+			}
+			v, ok := n.info.Uses[id].(*types.Var)
+			if !ok || v.IsField() || v.Parent() == nil || v.Parent() == n.pp.Types.Scope() || n.varBad[v] || n.varAssign[v] != nil {
+				return true
+			}
+			if _, isPtr := v.Type().Underlying().(*types.Pointer); !isPtr {
+				return true
+			}
+			if n.overlaps(filename, n.off(sel.Pos()), n.off(sel.End())) {
+				return true
+			}
+			n.counter++
+			var params, args []string
+			okT := true
+			for k := 0; k < sig.Params().Len(); k++ {
+				t := sig.Params().At(k).Type()
+				name := fmt.Sprintf("_inl%dp%d", n.counter, k)
+				if sig.Variadic() && k == sig.Params().Len()-1 {
+					tt, ok := n.typeText(t.(*types.Slice).Elem(), f, filename)
+					okT = okT && ok
+					params = append(params, name+" ..."+tt)
+					args = append(args, name+"...")
+				} else {
+					tt, ok := n.typeText(t, f, filename)
+					okT = okT && ok
+					params = append(params, name+" "+tt)
+					args = append(args, name)
+				}
+			}
+			var results []string
+			for k := 0; k < sig.Results().Len(); k++ {
+				tt, ok := n.typeText(sig.Results().At(k).Type(), f, filename)
+				okT = okT && ok
+				results = append(results, tt)
+			}
+			if !okT {
+				return true
+			}
+			res := ""
+			ret := ""
+			if len(results) == 1 {
+				res, ret = " "+results[0], "return "
+			} else if len(results) > 1 {
+				res, ret = " ("+strings.Join(results, ", ")+")", "return "
+			}
+			text := fmt.Sprintf("func(%s)%s { %s%s.%s(%s) }", strings.Join(params, ", "), res, ret, id.Name, sel.Sel.Name, strings.Join(args, ", "))
+			n.addEdit(filename, n.off(sel.Pos()), n.off(sel.End()), text)
+			n.notes = append(n.notes, fmt.Sprintf("method value %s.%s written as a closure calling the method", id.Name, sel.Sel.Name))
+			changed = true
+			return true
+		})
+	}
+	return changed
+}
